@@ -7,6 +7,12 @@
   (`StatsCI.Model.Quantile`) themselves, run once at `RR fl` — reals with a rounding function
   `fl` applied after every arithmetic operation — and once at exact arithmetic `Rex = RR id`.
 
+  `ci_wilson` clamps its two bounds into `[0, 1]` (`(mean − span).max(0.)`, `(mean + span).min(1.)`).
+  In exact arithmetic the clamp is inert (C03); in rounded arithmetic it is what keeps a computed
+  bound that slipped below 0 or above 1 from becoming an `IndexError` of `ci_indices`
+  (`ciWilson_fl_bounds`, `ciIndices_fl_no_indexError`), and it never moves a computed bound
+  further from the exact one (`wilsonClose_of_unclamped`).
+
   Vocabulary (`StatsCI.RankRound`, in `Lemmas/RankRound.lean`; `StatsCI.QSpec`):
   * `Rounds fl u n`: `0 ≤ u`, `|fl x − x| ≤ u·|x|` for every `x`, `fl m = m` for naturals `m ≤ n`;
   * `delta u ε p n = n·ε + u·n·(p + ε)`: how far the product `fl (p̃·n)` computed from a
@@ -18,8 +24,9 @@
   * `rankFl fl n p = min ⌊fl (p · fl n)⌋₊ (n−1)`: the rank `Stats::index` computes at `RR fl`;
     `rank n p = min ⌊p·n⌋₊ (n−1)`, `successes q n = (round (q·n)).toNat`: the exact ones;
   * `WilsonClose ε rF r`: if the two `ci_wilson` outcomes are `Ok [aF, bF]` and `Ok [a, b]`
-    then `|aF − a| ≤ ε` and `|bF − b| ≤ ε`  (a **hypothesis** here: the bound
-    `ε = C·u·(1 + z²)` on the Wilson numbers is proved elsewhere);
+    then `|aF − a| ≤ ε` and `|bF − b| ≤ ε`  (a **hypothesis** of the lifts: the bound
+    `ε = C·u·(1 + z²)` on the Wilson numbers is proved elsewhere; `wilsonClose_of_unclamped`
+    below reduces it to the closeness of the *unclamped* bounds);
   * `nudge a b`: the rounding function that moves the single value `a` to `b`.
 -/
 import StatsCI.Lemmas.RankRound
@@ -140,17 +147,23 @@ section lift
 variable (critF : Crit (RR fl)) (confF : Confidence (RR fl)) (qF : RR fl)
   (crit : Crit Rex) (conf : Confidence Rex) (q : Rex)
 
+/-- **The clamp of `ci_wilson` holds at every rounding function.** Whatever `fl` does, an `Ok`
+    result of `ci_wilson` at `RR fl` is a two-sided interval `[a, b]` of proportions:
+    `0 ≤ a ≤ b ≤ 1`. (No hypothesis on `fl` at all.) -/
+theorem ciWilson_fl_bounds (k : ℕ) (I : Interval (RR fl))
+    (h : Proportion.ciWilson critF confF n k = .ok I) :
+    ∃ a b, I = .twoSided a b ∧ 0 ≤ a.val ∧ a.val ≤ b.val ∧ b.val ≤ 1 :=
+  ciWilson_ok_inv critF confF n k I h
+
 /-- **The computed side, all branches.** Once `ci_wilson` has produced `[a, b]` at `RR fl`,
-    `ci_indices` returns `IndexError` if a computed bound has left `[0, 1]`, and otherwise the
-    ranks `rankFl` of `a` and `b` in the shape of the confidence (`Interval::new` rejecting
-    inverted ranks). -/
+    `ci_indices` returns the ranks `rankFl` of `a` and `b` in the shape of the confidence
+    (`Interval::new` rejecting inverted ranks). There is no `IndexError` branch any more: the
+    bounds `ci_wilson` reports are clamped into `[0, 1]`. -/
 theorem ciIndices_fl_outcome (hq : 0 < qF.val ∧ qF.val < 1) (hn4 : 4 ≤ n) (a b : RR fl)
     (hW : Proportion.ciWilson critF confF n (roundToNat (mul qF (Scalar.ofNat n : RR fl))) =
       .ok (.twoSided a b)) :
     ciIndices critF confF n qF =
-      if a.val < 0 then .err (.indexError a n)
-      else if 1 < b.val then .err (.indexError b n)
-      else match (generalizing := false) confF with
+      match (generalizing := false) confF with
         | .twoSided _ =>
             if rankFl fl n b.val < rankFl fl n a.val then .err (.interval .invalidBounds)
             else .ok (.twoSided (rankFl fl n a.val) (rankFl fl n b.val))
@@ -159,22 +172,28 @@ theorem ciIndices_fl_outcome (hq : 0 < qF.val ∧ qF.val < 1) (hn4 : 4 ≤ n) (a
   rw [roundToNat_fl] at hW
   exact ciIndices_of_wilson critF confF n qF hq hn4 a b hW
 
-/-- with a monotone rounding function the computed side succeeds as soon as the computed
-    Wilson bounds stay inside `[0, 1]` -/
+/-- **No `IndexError` in rounded arithmetic.** `ci_indices` at `RR fl` never returns an
+    `IndexError`, for any rounding function and any inputs: a Wilson bound that rounding pushed
+    below 0 or above 1 is clamped by `ci_wilson` before `ci_indices` tests it. -/
+theorem ciIndices_fl_no_indexError (x : RR fl) (m : ℕ) :
+    ciIndices critF confF n qF ≠ .err (.indexError x m) :=
+  ciIndices_ne_indexError critF confF n qF x m
+
+/-- with a monotone rounding function the computed side succeeds as soon as `ci_wilson` does
+    (the computed Wilson bounds are inside `[0, 1]` by the clamp, and ordered, so their ranks
+    are ordered) -/
 theorem ciIndices_fl_ok (hR : Rounds fl u n) (hmono : Monotone fl)
     (hq : 0 < qF.val ∧ qF.val < 1) (hn4 : 4 ≤ n) (a b : RR fl)
     (hW : Proportion.ciWilson critF confF n (roundToNat (mul qF (Scalar.ofNat n : RR fl))) =
-      .ok (.twoSided a b))
-    (ha : 0 ≤ a.val) (hb : b.val ≤ 1) :
+      .ok (.twoSided a b)) :
     ciIndices critF confF n qF =
       .ok (match (generalizing := false) confF with
            | .twoSided _ => .twoSided (rankFl fl n a.val) (rankFl fl n b.val)
            | .upper _ => .upper (rankFl fl n a.val)
            | .lower _ => .lower (rankFl fl n b.val)) := by
-  rw [ciIndices_fl_outcome critF confF qF hq hn4 a b hW, if_neg (not_lt.mpr ha),
-    if_neg (not_lt.mpr hb)]
+  rw [ciIndices_fl_outcome critF confF qF hq hn4 a b hW]
   rw [roundToNat_fl] at hW
-  obtain ⟨a', b', hab, hle⟩ := ciWilson_ok_inv critF confF n _ _ hW
+  obtain ⟨a', b', hab, -, hle, -⟩ := ciWilson_ok_inv critF confF n _ _ hW
   cases hab
   have hn0 : (0 : ℝ) ≤ fl n := by rw [hR.nat n le_rfl]; exact Nat.cast_nonneg n
   cases confF with
@@ -183,6 +202,25 @@ theorem ciIndices_fl_ok (hR : Rounds fl u n) (hmono : Monotone fl)
     rw [if_neg (not_lt.mpr (rankFl_mono hmono hn0 hle))]
   | upper l => rfl
   | lower l => rfl
+
+/-- **The clamp does not hurt the accuracy.** If the *unclamped* bounds `fl (c̃ − s̃)`,
+    `fl (c̃ + s̃)` that `ci_wilson` computes at `RR fl` (from its computed centre `c̃` and span `s̃`)
+    are within `ε` of the exact Wilson bounds `pLow`, `pHigh`, then the hypothesis `WilsonClose ε`
+    of the lifts below holds for the clamped bounds `ci_wilson` reports: the exact bounds are
+    proportions, and clamping towards `[0, 1]` never moves a number further from a point of
+    `[0, 1]`. -/
+theorem wilsonClose_of_unclamped (hkind : confF.kind = conf.kind) (k : ℕ) (hn : 0 < n)
+    (hkn : k ≤ n)
+    (h1 : |(sub (Proportion.wilsonCentre (Scalar.ofNat n : RR fl) (Scalar.ofNat k)
+                  (critF (.z confF.quantile)))
+                (Proportion.wilsonSpan (Scalar.ofNat n : RR fl) (Scalar.ofNat k)
+                  (critF (.z confF.quantile)))).val - pLow n k (zOf crit conf)| ≤ ε)
+    (h2 : |(add (Proportion.wilsonCentre (Scalar.ofNat n : RR fl) (Scalar.ofNat k)
+                  (critF (.z confF.quantile)))
+                (Proportion.wilsonSpan (Scalar.ofNat n : RR fl) (Scalar.ofNat k)
+                  (critF (.z confF.quantile)))).val - pHigh n k (zOf crit conf)| ≤ ε) :
+    WilsonClose ε (Proportion.ciWilson critF confF n k) (Proportion.ciWilson crit conf n k) :=
+  ciWilson_close critF confF crit conf hkind n k hn hkn h1 h2
 
 /-- **Lift to `ci_indices`: one position.** Run `ci_indices` at `RR fl` (inputs `critF`, `confF`,
     `qF`) and at exact arithmetic (`crit`, `conf`, `q`) for the same sample size, with confidences
@@ -274,6 +312,9 @@ end lift
     Wilson number is computed exactly (`pHigh = 4/5` on both sides, `ε = 0`), the product
     `0.8·16 = 12.8` is rounded to `13`, and `ci_indices` returns `(←, 13]` at `RR fl16` but
     `(←, 12]` exactly — all hypotheses of `ciIndices_within_one` hold.
+  * `flC = nudge 0.8 1.1`, `u = 1/2`, same instance: the unclamped upper Wilson bound is computed
+    as `1.1`, `ci_wilson` reports the clamped `[0, 1]`, and `ci_indices` returns `(←, 15]`
+    instead of an `IndexError` — the clamp does act at `RR fl`.
   * exact arithmetic `fl = id` with positive `u`, `ε`: the hypotheses of the lift hold with the
     two-sided instance of C03 (`n = 10`, `q = 1/2`, `z = 2`, ranks `[2, 7]`). -/
 
@@ -400,14 +441,57 @@ example :
 /-- `ciIndices_fl_ok`: its hypotheses hold for the (monotone) identity on the `n = 16` instance
     (the single-point `nudge` functions above are not monotone) -/
 example :
-    Monotone (id : ℝ → ℝ) ∧
+    Monotone (id : ℝ → ℝ) ∧ Rounds id (1 / 64) 16 ∧
     Proportion.ciWilson (constCrit 3 : Crit Rex) (.lower (inj (9 / 10))) 16
       (roundToNat (mul (inj (1 / 2) : Rex) (Scalar.ofNat 16))) =
-        .ok (.twoSided (inj 0) (inj (4 / 5))) ∧
-    (0 : ℝ) ≤ (inj 0 : Rex).val ∧ (inj (4 / 5) : Rex).val ≤ 1 := by
-  refine ⟨monotone_id, ?_, by simp, by norm_num⟩
+        .ok (.twoSided (inj 0) (inj (4 / 5))) := by
+  refine ⟨monotone_id, rounds_id (by norm_num) 16, ?_⟩
   rw [Quantile.roundToNat_eq, inj_val, successes_half_16]
   exact ciWilson_ex16
+
+/-- the clamp acts at `RR fl`: with `flC` (`Rounds flC (1/2) 16`) the unclamped upper bound is
+    computed as `1.1`, `ci_wilson` reports `[0, 1]` (`ciWilson_fl_bounds`, `ciIndices_fl_outcome`
+    apply), and `ci_indices` returns the last position instead of `IndexError(1.1, 16)` -/
+example :
+    Rounds flC (1 / 2) 16 ∧
+    (add (Proportion.wilsonCentre (Scalar.ofNat 16 : RR flC) (Scalar.ofNat 8) (inj 3))
+      (Proportion.wilsonSpan (Scalar.ofNat 16 : RR flC) (Scalar.ofNat 8) (inj 3))).val = 11 / 10 ∧
+    Proportion.ciWilson (constCrit 3 : Crit (RR flC)) (.lower (inj (9 / 10))) 16
+      (roundToNat (mul (inj (1 / 2) : RR flC) (Scalar.ofNat 16))) =
+        .ok (.twoSided (inj 0) (inj 1)) ∧
+    ciIndices (constCrit 3 : Crit (RR flC)) (.lower (inj (9 / 10))) 16 (inj (1 / 2)) =
+      .ok (.lower 15) := by
+  refine ⟨rounds_flC, unclamped_flC, ?_, ciIndices_flC⟩
+  rw [roundToNat_fl, inj_val, succFl_flC]
+  exact ciWilson_flC
+
+/-- `wilsonClose_of_unclamped`: its hypotheses hold with `ε = 0` on the `fl16` instance (every
+    Wilson number is computed exactly there: `pLow = 1/5`, `pHigh = 4/5`) -/
+example :
+    (Confidence.lower (inj (9 / 10)) : Confidence (RR fl16)).kind =
+      (Confidence.lower (inj (9 / 10)) : Confidence Rex).kind ∧ 0 < 16 ∧ 8 ≤ 16 ∧
+    |(sub (Proportion.wilsonCentre (Scalar.ofNat 16 : RR fl16) (Scalar.ofNat 8)
+            ((constCrit 3 : Crit (RR fl16))
+              (.z (Confidence.lower (inj (9 / 10)) : Confidence (RR fl16)).quantile)))
+          (Proportion.wilsonSpan (Scalar.ofNat 16 : RR fl16) (Scalar.ofNat 8)
+            ((constCrit 3 : Crit (RR fl16))
+              (.z (Confidence.lower (inj (9 / 10)) : Confidence (RR fl16)).quantile)))).val -
+        pLow 16 8 (zOf (constCrit 3 : Crit Rex) (.lower (inj (9 / 10))))| ≤ 0 ∧
+    |(add (Proportion.wilsonCentre (Scalar.ofNat 16 : RR fl16) (Scalar.ofNat 8)
+            ((constCrit 3 : Crit (RR fl16))
+              (.z (Confidence.lower (inj (9 / 10)) : Confidence (RR fl16)).quantile)))
+          (Proportion.wilsonSpan (Scalar.ofNat 16 : RR fl16) (Scalar.ofNat 8)
+            ((constCrit 3 : Crit (RR fl16))
+              (.z (Confidence.lower (inj (9 / 10)) : Confidence (RR fl16)).quantile)))).val -
+        pHigh 16 8 (zOf (constCrit 3 : Crit Rex) (.lower (inj (9 / 10))))| ≤ 0 := by
+  have hzF : (constCrit 3 : Crit (RR fl16))
+      (.z (Confidence.lower (inj (9 / 10)) : Confidence (RR fl16)).quantile) = inj 3 := rfl
+  have hz : zOf (constCrit 3 : Crit Rex) (.lower (inj (9 / 10))) = 3 := rfl
+  refine ⟨rfl, by norm_num, by norm_num, ?_, ?_⟩
+  · rw [hzF, hz, centre_fl16, span_fl16, pLow_16_8_3]
+    norm_num [fl16, nudge]
+  · rw [hzF, hz, centre_fl16, span_fl16, pHigh_16_8_3]
+    norm_num [fl16, nudge]
 
 end nonvacuity
 
